@@ -3,6 +3,7 @@ package ipc
 import (
 	"fmt"
 	"go/token"
+	"go/types"
 
 	"golang.org/x/tools/go/ssa"
 )
@@ -27,7 +28,7 @@ func runC04(c *Ctx) {
 	c.Rule("C04.O", "the dedup LRU is owned by the polling goroutine", 1)
 	c.Rule("C04.N", "dedup window ≥ 1000", 1)
 	c.Rule("C04.F", "a worker forwards once", 7)
-	c.Rule("C04.P", "the proxy offers each ID exactly once and loses none", 5)
+	c.Rule("C04.P", "the proxy offers each ID exactly once and loses none", 6)
 
 	const lruGet = "(*github.com/golang/groupcache/lru.Cache).Get"
 	const lruAdd = "(*github.com/golang/groupcache/lru.Cache).Add"
@@ -246,6 +247,24 @@ func runC04(c *Ctx) {
 				q = append(q, b.Succs...)
 			}
 			c.Check("C04.P", key, p, r.Instr.Pos(), bad == "", "the received ID is appended to the slice that every later return hands back", bad+": a received ID is dropped, that client request is never served")
+		}
+		// the reply slice is private to the call: it does not live in (or alias) a field of the shared proxy object
+		if wf != nil {
+			bad := ""
+			for _, r := range Returns(wf) {
+				SliceBack(ReturnValue(r, 0), func(v ssa.Value) bool {
+					if base, fld, ok := FieldLoad(v); ok && len(wf.Params) > 0 && rootIs(base, wf.Params[0]) {
+						if _, isSlice := v.Type().Underlying().(*types.Slice); isSlice {
+							bad = "field " + fld
+						}
+					}
+					if g, ok := v.(*ssa.Global); ok {
+						bad = "package variable " + g.Name()
+					}
+					return true
+				})
+			}
+			c.Check("C04.P", "reply:private-slice", p, wf.Pos(), bad == "", "the slice of IDs returned to a poller is built from call-local storage", "the slice returned by waitForRequestIDs is backed by shared storage ("+bad+" of the proxy): a concurrent poller overwrites it between return and serialisation, so one ID is reported twice and another to nobody")
 		}
 		if nrecv < 2 {
 			c.Bad("C04.P", "requestIDs:recv-sites", p, 0, fmt.Sprintf("found %d receive sites on requestIDs, expected 2", nrecv))
